@@ -378,6 +378,39 @@ def check_hist(prog, expect):
     return None, "ok"
 
 
+DEEP_SHAPES = {
+    "car": "(define (nest n leaf) (let lp ((i 0) (x leaf)) (if (= i n) x (lp (+ i 1) (list x 0)))))",
+    "vec": "(define (nest n leaf) (let lp ((i 0) (x leaf)) (if (= i n) x (lp (+ i 1) (vector 1 x 2)))))",
+    "cdr": "(define (nest n leaf) (let lp ((i 0) (x (list leaf))) (if (= i n) x (lp (+ i 1) (cons 0 x)))))",
+}
+DEEP_USES = {
+    "equal?": "(equal? A B)",
+    "member": "(if (member A (list 'p B)) #t #f)",
+    "assoc": "(if (assoc A (list (list 'p) (list B 1))) #t #f)",
+    "table": "(let ((h (make-hash-table equal?))) (hash-table-set! h A 'v) (if (eq? (hash-table-ref/default h B 'none) 'v) #t #f))",
+}
+
+
+def check_deep(case):
+    """two structures of the same shape nested n levels deep whose only difference (if any) is the innermost leaf"""
+    a, b = case["leaves"]
+    prog = (DEEP_SHAPES[case["shape"]] + "\n(define A (nest %d %s))\n(define B (nest %d %s))\n(write %s)\n(newline)\n"
+            % (case["n"], a, case["n"], b, DEEP_USES[case["use"]]))
+    r = driver().run(prog, cpu=60)
+    if r.status in ("cpu", "wall"):
+        return None, "inconclusive"
+    if r.status != "ok" or r.end.get("errs"):
+        if "#!OOS" in r.out or "#!OOM" in r.out:
+            return None, "inconclusive"
+        return E.Found("deep/crash", "%s %s\n%s" % (r.status, r.out[-300:], prog)), "ok"
+    want = "#t" if a == b else "#f"
+    got = r.body.strip()
+    if got != want:
+        return E.Found("deep/%s-%s" % (case["use"], "false-positive" if want == "#f" else "false-negative"),
+                       "%s on structures nested %d deep (%s) with leaves %s / %s answered %s, expected %s\n%s" % (case["use"], case["n"], case["shape"], a, b, got, want, prog)), "ok"
+    return None, "ok"
+
+
 def shards(tier, seed, nshards, known):
     return [{"tier": tier, "seed": seed, "shard": i, "nshards": nshards, "known": known} for i in range(nshards)]
 
@@ -422,12 +455,45 @@ def run_shard(spec):
             raise found
 
     E.hypothesis_search(st.data(), test_hist, E.subseed(spec["seed"], "C15h", spec["shard"]), 250 if quick else 20000, res, to_case=lambda d: last.get("case"))
+
+    # deeply nested data: the answer must not depend on how deep the difference lies
+    k = 0
+    for shape in sorted(DEEP_SHAPES):
+        for use in sorted(DEEP_USES):
+            for n in ([50, 9000, 10500] if quick else [50, 5000, 9000, 9990, 10000, 10001, 10500, 12000, 30000, 100000]):
+                for leaves in (["'a", "'a"], ["'a", "'b"], ["1", "1.0"]):
+                    k += 1
+                    if k % spec["nshards"] != spec["shard"]:
+                        continue
+                    case = {"deep": True, "shape": shape, "use": use, "n": n, "leaves": leaves}
+                    if "KF-C15-primitive-equal-depth" in spec["known"] and use != "equal?" and shape != "cdr" and n > 9990 and leaves[0] != leaves[1]:
+                        res.excluded["excluded_by_known_finding:primitive-equal-depth"] += 1
+                        continue
+                    f, status = check_deep(case)
+                    if status == "inconclusive":
+                        res.inconclusive += 1
+                        continue
+                    res.case(case, n > 1000, cls=["deep:" + use])
+                    if f:
+                        res.violation(case, f.signature, f.detail)
     if _D is not None:
         _D.close()
     return res
 
 
+def matches_finding(v, f):
+    c = v.get("case") or {}
+    if f.get("id") == "KF-C15-primitive-equal-depth":
+        return bool(c.get("deep")) and c.get("use") != "equal?" and c.get("n", 0) > 9990 and "false-positive" in v.get("signature", "")
+    return False
+
+
 def replay(case):
+    if case.get("deep"):
+        f, s = check_deep(case)
+        if f:
+            return {"signature": f.signature, "detail": f.detail, "case": case}
+        return None
     if "vals" in case:
         vals = [(k, c, r) for k, c, r in case["vals"]]
         f, s = check_family(vals)
